@@ -11,7 +11,7 @@ class C01(Prop):
     id = "C01"
     driver = "Broker"
     quick_n = 350
-    thorough_n = 15000
+    thorough_n = 40000
     rule = ("broker histories of quote / trade (from current quotes or explicit prices) / mark / valuation / weights / "
             "accrue / rebalance over 1-4 contracts drawn from spot x1, user-defined spot with multiplier != 1, built-in "
             "futures (ES, NK, VX, ZN, ZQ) and user-defined margined specs; exact (dyadic) and real-valued regimes; "
@@ -26,6 +26,10 @@ class C01(Prop):
     ]
     COMPARE = {"nlv", "pos", "rebal", "accrue", "tradeq", "trade", "q", "d"}
     KINDS = {"nlv-identity", "position-sum", "unmapped-exception"}
+
+    def exhaustive_cases(self, tier):
+        # thorough tier: every history of up to 4 operations over a small two-contract alphabet (11 110 histories)
+        return bs.small_scope_histories(4) if tier == "thorough" else []
 
     def gen(self, rng, tier):
         return bs.gen_history(rng, tier)
